@@ -2,13 +2,116 @@
 
 package signxap
 
-// H11.xap: removeSignature on an arbitrary central-directory blob (uploaded
-// by the client in the tar stream).
-func VH_C11_XapRemoveSignature() {
-	n := vhConcretize(vhInt("len", 0, 24), 32)
-	cd := vhBytes("cd", n)
-	vhLoopBound(len(cd) + 8)
-	out := removeSignature(cd)
-	vhAssert(len(out) <= len(cd), "result-is-a-prefix")
-	vhReach("returned") // vh:require returned
+import (
+	"bytes"
+	"crypto"
+	"crypto/sha256"
+	"errors"
+
+	"github.com/sassoftware/relic/v8/lib/authenticode"
+	"github.com/sassoftware/relic/v8/lib/pkcs7"
+	"github.com/sassoftware/relic/v8/lib/pkcs9"
+	"github.com/sassoftware/relic/v8/lib/x509tools"
+)
+
+// the CMS layer as a stub: any blob decodes to an Authenticode structure that
+// vouches for `digest`; the signature verifies unless `bad`
+func vhXapCms(digest []byte, bad *bool) {
+	vhStub("github.com/sassoftware/relic/v8/lib/pkcs7.Unmarshal", func(blob []byte) (*pkcs7.ContentInfoSignedData, error) {
+		psd := &pkcs7.ContentInfoSignedData{}
+		psd.Content.ContentInfo.ContentType = authenticode.OidSpcIndirectDataContent
+		psd.Content.SignerInfos = make([]pkcs7.SignerInfo, 1)
+		return psd, nil
+	})
+	vhStub("(*github.com/sassoftware/relic/v8/lib/pkcs7.SignedData).Verify", func(sd *pkcs7.SignedData, ext []byte, skip bool) (pkcs7.Signature, error) {
+		if *bad {
+			return pkcs7.Signature{}, errors.New("pkcs7: signature mismatch")
+		}
+		return pkcs7.Signature{SignerInfo: &sd.SignerInfos[0]}, nil
+	})
+	vhStub("github.com/sassoftware/relic/v8/lib/pkcs9.VerifyOptionalTimestamp", func(sig pkcs7.Signature) (pkcs9.TimestampedSignature, error) {
+		return pkcs9.TimestampedSignature{Signature: sig}, nil
+	})
+	alg, _ := x509tools.PkixDigestAlgorithm(crypto.SHA256)
+	vhStub("(github.com/sassoftware/relic/v8/lib/pkcs7.ContentInfo).Unmarshal", func(ci pkcs7.ContentInfo, dest interface{}) error {
+		d := dest.(*authenticode.SpcIndirectDataContentMsi)
+		d.MessageDigest.DigestAlgorithm = alg
+		d.MessageDigest.Digest = digest
+		return nil
+	})
+	vhStub("github.com/sassoftware/relic/v8/lib/authenticode.GetOpusInfo", func(si *pkcs7.SignerInfo) (*authenticode.SpcSpOpusInfo, error) {
+		return nil, nil
+	})
+}
+
+// H11.xap-verify: signxap.Verify on an arbitrary byte string of every length
+// around its fixed-size reads (10-byte trailer, 22-byte end record, 8-byte
+// header): an error, "not signed" or a signature - no panic, no buffer sized
+// by the trailer's (untrusted) size fields beyond the limit. The CMS layer
+// behind the byte-level code is a stub.
+func VH_C11_XapVerify() {
+	// vh:stubbed
+	lens := []int{0, 9, 10, 14, 18, 21, 22, 26, 30}
+	n := lens[vhConcretize(vhInt("lenidx", 0, len(lens)-1), 16)]
+	b := vhBytes("xap", n)
+	bad := false
+	vhXapCms(make([]byte, 32), &bad)
+	vhAllocLimit(4<<20 + 16*len(b))
+	vhLoopBound(64)
+	vhMaxLen(64)
+	sig, err := Verify(bytes.NewReader(b), int64(len(b)), vhBool("skip-digests"))
+	if err == nil {
+		vhAssert(sig != nil, "result-non-nil")
+		vhReach("accepted")
+	} else {
+		vhReach("rejected") // vh:require rejected
+	}
+}
+
+// H02.xap: a signed XAP is the zip, an 8-byte header, the CMS blob and a
+// 10-byte trailer. Verify accepts it when the CMS layer (stub) accepts and
+// the digest it vouches for is the SHA-256 of the zip part; it rejects the
+// package after ONE changed byte anywhere in the zip part (symbolic position
+// and value), a bad CMS signature, or a header/trailer size disagreement; an
+// unsigned zip is reported as not signed.
+func VH_C02_XapVerifyComparesDigest() {
+	// vh:stubbed
+	zipPart, _ := vhMiniZip([]byte{0xca, 0xfe})
+	cms := []byte("cms-blob")
+	var f bytes.Buffer
+	f.Write(zipPart)
+	f.Write([]byte{0, 0, 0, 0, byte(len(cms)), 0, 0, 0}) // header: two unknown words, blob size
+	f.Write(cms)
+	m := uint32(trailerMagic)
+	f.Write([]byte{byte(m), byte(m >> 8), byte(m >> 16), byte(m >> 24), 1, 0, byte(len(cms) + 8), 0, 0, 0})
+	file := f.Bytes()
+	sum := sha256.Sum256(zipPart)
+	bad := false
+	vhXapCms(sum[:], &bad)
+	vhMaxLen(4096)
+	vhLoopBound(256)
+	sig, err := Verify(bytes.NewReader(file), int64(len(file)), false)
+	vhAssert(err == nil && sig != nil, "signed-package-verifies")
+	switch vhConcretize(vhInt("alteration", 0, 3), 4) {
+	case 0:
+		t := append([]byte{}, file...)
+		p := vhConcretize(vhInt("changed-byte", 0, len(zipPart)-1), 256)
+		t[p] = vhU8("new-value")
+		vhAssume(t[p] != file[p])
+		_, err = Verify(bytes.NewReader(t), int64(len(t)), false)
+		vhAssert(err != nil, "changed-zip-byte-rejected")
+	case 1:
+		bad = true
+		_, err = Verify(bytes.NewReader(file), int64(len(file)), false)
+		vhAssert(err != nil, "bad-cms-signature-rejected")
+	case 2:
+		t := append([]byte{}, file...)
+		t[len(zipPart)+4]++ // header says one more byte than the trailer accounts for
+		_, err = Verify(bytes.NewReader(t), int64(len(t)), false)
+		vhAssert(err != nil, "size-disagreement-rejected")
+	case 3:
+		_, err = Verify(bytes.NewReader(zipPart), int64(len(zipPart)), false)
+		vhAssert(err != nil, "unsigned-zip-is-not-a-signature")
+	}
+	vhReach("checked") // vh:require checked
 }
